@@ -1064,6 +1064,11 @@ def flatten_fn(it, a, order):
                                                 z3.And(rowf(k) >= 0, rowf(k) < rz, colf(k) >= 0, colf(k) < cz,
                                                        lin(rowf(k), colf(k)) == k))))
 
+        if not hasattr(it, 'blocks'):
+            it.blocks = []
+        # register as a quotient/remainder pair so that contracts can ask for instances (VC.hint_blocks)
+        it.blocks.append((rowf, colf, rz, cz) if order == 'C' else (colf, rowf, cz, rz))
+
         def flat(kk):
             # recognise kk = lin(i, j) syntactically to avoid going through the inverse
             return g((rowf(kk), colf(kk)))
@@ -1123,9 +1128,79 @@ def np_eye(it, n):
     return SArr((n, n), lambda o: z3.If(o[0] == o[1], z3.RealVal(1), z3.RealVal(0)), 'real')
 
 
+def block_coords(it, outer, inner, hint='blk'):
+    """functions (q, m) with u = q(u)*inner + m(u), 0 <= m(u) < inner, 0 <= q(u) < outer on [0, outer*inner):
+    quotient and remainder without symbolic division (uninterpreted, with the defining relation in both directions)"""
+    q = it.ctx.fresh_func(hint + '_q', z3.IntSort(), z3.IntSort())
+    m = it.ctx.fresh_func(hint + '_m', z3.IntSort(), z3.IntSort())
+    oz, iz = to_num(outer), to_num(inner)
+    a, b, u = z3.Int(it.ctx._name('ba')), z3.Int(it.ctx._name('bb')), z3.Int(it.ctx._name('bu'))
+    it.ctx.assume(z3.ForAll([a, b], z3.Implies(z3.And(a >= 0, a < oz, b >= 0, b < iz), z3.And(q(a * iz + b) == a, m(a * iz + b) == b))))
+    it.ctx.assume(z3.ForAll([u], z3.Implies(z3.And(u >= 0, u < oz * iz),
+                                            z3.And(q(u) >= 0, q(u) < oz, m(u) >= 0, m(u) < iz, q(u) * iz + m(u) == u)), patterns=[q(u)]))
+    if not hasattr(it, 'blocks'):
+        it.blocks = []
+    it.blocks.append((q, m, oz, iz))
+    return q, m
+
+
+def np_kron(it, A, B):
+    """np.kron(A, B)[a*r + i, b*c + j] = A[a, b] * B[i, j]  for A (p x q), B (r x c)"""
+    it.ctx.note_trusted("np.kron(A, B)[a*r+i, b*c+j] = A[a,b]*B[i,j] (block coordinates as quotient / remainder)")
+    A = A if isinstance(A, SArr) else as_array(it, A)
+    B = B if isinstance(B, SArr) else as_array(it, B)
+    if A.rank != 2 or B.rank != 2:
+        it.ctx.oblige("pre(np.kron): both factors are matrices (rank 2)", z3.BoolVal(False))
+        raise Unsupported("kron of ranks %d,%d" % (A.rank, B.rank))
+    p, q_ = A.shape
+    r, c = B.shape
+    rq, rm = block_coords(it, p, r, 'kronr')
+    cq, cm = block_coords(it, q_, c, 'kronc')
+    ga, gb = A.get, B.get
+    out = SArr((z3.simplify(to_num(p) * to_num(r)), z3.simplify(to_num(q_) * to_num(c))),
+               lambda o: to_real(ga((rq(o[0]), cq(o[1])))) * to_real(gb((rm(o[0]), cm(o[1])))))
+    return out
+
+
 def np_kron_eye_left(it, n, J):
-    """np.kron(np.eye(n), J)[a*r+i, b*c+j] = [a==b]*J[i,j] -- expressed with block coordinates"""
-    raise Unsupported("kron")
+    return np_kron(it, np_eye(it, n), J)
+
+
+def np_bmat(it, blocks):
+    """np.bmat([[A, B], [C, D], ...]): the block matrix (row blocks of equal height, column blocks of equal width)"""
+    it.ctx.note_trusted("np.bmat(blocks): the matrix assembled from the blocks; blocks in a row have equal heights, blocks in a column equal widths")
+    rows = [list(r) for r in blocks]
+    if not rows or any(len(r) != len(rows[0]) for r in rows):
+        raise Unsupported("ragged bmat")
+    rows = [[(b if isinstance(b, SArr) else as_array(it, b)) for b in r] for r in rows]
+    for r in rows:
+        for b in r:
+            if b.rank != 2:
+                it.ctx.oblige("pre(np.bmat): every block is a matrix (rank 2)", z3.BoolVal(False))
+                raise PyRaise(ExcVal('ValueError', ("bmat block of rank %d" % b.rank,)))
+    heights = [to_num(r[0].shape[0]) for r in rows]
+    widths = [to_num(b.shape[1]) for b in rows[0]]
+    for r, h in zip(rows, heights):
+        for b, w in zip(r, widths):
+            it.ctx.oblige("pre(np.bmat): block shapes agree", z3.And(to_num(b.shape[0]) == h, to_num(b.shape[1]) == w))
+    roff = [z3.IntVal(0)]
+    for h in heights:
+        roff.append(z3.simplify(roff[-1] + h))
+    coff = [z3.IntVal(0)]
+    for w in widths:
+        coff.append(z3.simplify(coff[-1] + w))
+
+    def get(o):
+        u, v = o
+        val = None
+        for bi in reversed(range(len(rows))):
+            rowval = None
+            for bj in reversed(range(len(widths))):
+                e = to_real(rows[bi][bj].get((z3.simplify(u - roff[bi]), z3.simplify(v - coff[bj]))))
+                rowval = e if rowval is None else z3.If(v < coff[bj + 1], e, rowval)
+            val = rowval if val is None else z3.If(u < roff[bi + 1], rowval, val)
+        return val
+    return SArr((roff[-1], coff[-1]), get)
 
 
 ARRAY_METHODS = {
@@ -1357,6 +1432,9 @@ class SRandomState(Model):
 class Lib(object):
     SList = SList
     PropertyProxy = PropertyProxy
+
+    def block_coords(self, it, outer, inner, hint='blk'):
+        return block_coords(it, outer, inner, hint)
 
     def __init__(self):
         self._ns = {}
